@@ -1,19 +1,20 @@
-"""C16 fragments: episode bookkeeping arithmetic, goal index expressions, relabelled share (her_replay_buffer.py)."""
+"""C16 fragments: episode bookkeeping arithmetic, goal index expressions, relabelled share (her_replay_buffer.py).
+start/end patterns anchor on stable text only, never on the operator or constant the fragment captures."""
 FILE = "stable_baselines3/her/her_replay_buffer.py"
 _B = "HerReplayBuffer."
 
 SPECS = [
     # add(): invalidation of the episode being overwritten
-    dict(name="her_inval_guard", qual=_B + "add", start=r"^if episode_length > 0", end=None, kind="test",
+    dict(name="her_inval_guard", qual=_B + "add", start=r"^if (not )?\(?episode_length\b", end=None, kind="test",
          inputs=[("episode_length", "Z")]),
-    dict(name="her_inval_end", qual=_B + "add", start=r"^episode_end = episode_start \+ episode_length", end=None, kind="expr", ret="Z",
+    dict(name="her_inval_end", qual=_B + "add", start=r"^episode_end = ", end=None, kind="expr", ret="Z",
          inputs=[("episode_start", "Z"), ("episode_length", "Z")]),
     dict(name="her_inval_slot", qual=_B + "add", start=r"^episode_indices = ", end=None, kind="expr", ret="Z",
          inputs=[("t", "Z"), ("buffer_size", "Z")],
          subst={"np.arange(self.pos, episode_end)": "t", "self.buffer_size": "buffer_size"}),
     dict(name="her_inval_value", qual=_B + "add", start=r"^self\.ep_length\[episode_indices, env_idx\] = ", end=None, kind="expr", ret="Z", inputs=[]),
     # _compute_episode_length
-    dict(name="her_close_bounds", qual=_B + "_compute_episode_length", start=r"^episode_start = ", end=r"^if episode_end < episode_start",
+    dict(name="her_close_bounds", qual=_B + "_compute_episode_length", start=r"^episode_start = ", end=r"^if (not )?\(?episode_end\b",
          inputs=[("cur_start", "Z"), ("pos", "Z"), ("buffer_size", "Z")],
          subst={"self._current_ep_start[env_idx]": "cur_start", "self.pos": "pos", "self.buffer_size": "buffer_size"},
          outputs=[("episode_start", "Z"), ("episode_end", "Z")]),
@@ -29,23 +30,23 @@ SPECS = [
          inputs=[("ep_length", "Z")], subst={"self.ep_length": "ep_length"}),
     dict(name="her_ratio", qual=_B + "__init__", start=r"^self\.her_ratio = ", end=None, kind="expr", ret="Q",
          inputs=[("n_sampled_goal", "Z")], subst={"self.n_sampled_goal": "n_sampled_goal"}),
-    dict(name="her_virtual_product", qual=_B + "sample", start=r"^nb_virtual = ", end=None, kind="subexpr", pick=r"self\.her_ratio \* batch_size|batch_size \* self\.her_ratio",
+    dict(name="her_virtual_product", qual=_B + "sample", start=r"^nb_virtual = ", end=None, kind="subexpr", pick=r"(?!int\b).*self\.her_ratio.*",
          ret="Q", inputs=[("ratio", "Q"), ("batch_size", "Z")], subst={"self.her_ratio": "ratio"}),
     # _sample_goals
-    dict(name="her_goal_final", qual=_B + "_sample_goals", start=r"^transition_indices_in_episode = batch_ep_length", end=None, kind="expr", ret="Z",
+    dict(name="her_goal_final", qual=_B + "_sample_goals", start=r"^transition_indices_in_episode = (?!np\.random)", end=None, kind="expr", ret="Z",
          inputs=[("batch_ep_length", "Z")]),
     dict(name="her_goal_current", qual=_B + "_sample_goals", start=r"^current_indices_in_episode = ", end=None, kind="expr", ret="Z",
          inputs=[("batch_indices", "Z"), ("batch_ep_start", "Z"), ("buffer_size", "Z")], subst={"self.buffer_size": "buffer_size"}),
-    dict(name="her_goal_future_draw", qual=_B + "_sample_goals", start=r"^transition_indices_in_episode = np\.random\.randint\(current", end=None, kind="expr", ret="Z",
+    dict(name="her_goal_future_draw", qual=_B + "_sample_goals", start=r"^transition_indices_in_episode = np\.random\.randint\((?!0\b)", end=None, kind="expr", ret="Z",
          inputs=[("choice", "Z")], subst={"np.random.randint(current_indices_in_episode, batch_ep_length)": "choice"}),
-    dict(name="her_goal_episode_draw", qual=_B + "_sample_goals", start=r"^transition_indices_in_episode = np\.random\.randint\(0", end=None, kind="expr", ret="Z",
+    dict(name="her_goal_episode_draw", qual=_B + "_sample_goals", start=r"^transition_indices_in_episode = np\.random\.randint\(0\b", end=None, kind="expr", ret="Z",
          inputs=[("choice", "Z")], subst={"np.random.randint(0, batch_ep_length)": "choice"}),
     dict(name="her_goal_slot", qual=_B + "_sample_goals", start=r"^transition_indices = ", end=None, kind="expr", ret="Z",
          inputs=[("transition_indices_in_episode", "Z"), ("batch_ep_start", "Z"), ("buffer_size", "Z")], subst={"self.buffer_size": "buffer_size"}),
     # truncate_last_trajectory: which columns are closed, which slot is marked
-    dict(name="her_trunc_guard", qual=_B + "truncate_last_trajectory", start=r"^if \(self\._current_ep_start != self\.pos\)\.any\(\)", end=None,
-         kind="subexpr", pick=r"self\._current_ep_start != self\.pos", ret="bool",
+    dict(name="her_trunc_guard", qual=_B + "truncate_last_trajectory", start=r"^if \(?self\._current_ep_start\b", end=None,
+         kind="subexpr", pick=r"self\._current_ep_start [!=<>]+ self\.pos", ret="bool",
          inputs=[("cur_start", "Z"), ("pos", "Z")], subst={"self._current_ep_start": "cur_start", "self.pos": "pos"}),
-    dict(name="her_trunc_slot", qual=_B + "truncate_last_trajectory", start=r"^self\.dones\[self\.pos - 1, env_idx\] = ", end=None,
-         kind="subexpr", pick=r"self\.pos - 1", ret="Z", inputs=[("pos", "Z")], subst={"self.pos": "pos"}),
+    dict(name="her_trunc_slot", qual=_B + "truncate_last_trajectory", start=r"^self\.dones\[", end=None,
+         kind="subexpr", pick=r"self\.pos( [-+] \d+)?", ret="Z", inputs=[("pos", "Z")], subst={"self.pos": "pos"}),
 ]
